@@ -2,6 +2,9 @@
 package selftest
 
 import (
+	"context"
+	"errors"
+
 	"slices"
 
 	"fmt"
@@ -237,5 +240,14 @@ func T9() {
 			vrt.Assert("stable", s[i].v < s[i+1].v)
 		}
 	}
+	vrt.Reach("end")
+}
+
+// T10: package-level sentinel errors of lazily initialised packages are non-nil and distinct.
+func T10() {
+	vrt.Assert("canceled non-nil", context.Canceled != nil)
+	vrt.Assert("deadline non-nil", context.DeadlineExceeded != nil)
+	vrt.Assert("distinct", context.Canceled != context.DeadlineExceeded)
+	vrt.Assert("is", errors.Is(fmt.Errorf("wrap: %w", context.Canceled), context.Canceled))
 	vrt.Reach("end")
 }
